@@ -150,6 +150,20 @@ CLAIMED = {
         "echo-after-delay or ProtocolSendFailed; the vendor-specific code lists and the 10E0 ratify step only in the oracle.",
         "6 (C20)",
     ),
+    "C18": (
+        "Coq proof (lock discipline for every fault position and every history of transfers by case analysis / induction; version bookkeeping of the reassembly by induction) + correspondence and fault-injection oracle on real Schedule/Zone objects with a scripted controller",
+        "6 theorems in coq/props/C18.v about coq/model/M_Transfer.v (= _obtain_lock/_release_lock around Schedule._get_schedule / "
+        "set_schedule with a fault -- an exchange raising, or the caller's timeout cancelling -- at any await; _update_payload_set over "
+        "version-tagged fragments): whatever faults hit a transfer it never leaves the lock held; after ANY history of transfers the lock "
+        "is free and no transfer ever waited for it; a schedule is only assembled from a full set of ONE version (under the idealisation "
+        "that zlib's checksum rejects a mixed set); the pre-repair lock leak is the refuted witness. PARTIAL: 'always ends' and the "
+        "RQ/RP exchanges are not in the model -- decided by the oracle. Tie/oracle: a replay gateway's real zones, gwy.async_send_cmd "
+        "replaced by a scripted controller (change counter, per-zone fragment sets), ONE fault (raise / never answer / schedule changed "
+        "on the controller) injected at EVERY await index in turn, then a probe transfer of another zone; concurrent transfers of 2-3 zones.",
+        "Trusted: Coq kernel, harness (virtual loop, virtual datetime substituted into ramses_rf.system.heat). Not modelled: the "
+        "dispatcher path by which overheard 0404 replies reach Schedule._handle_msg, threading.Lock (single-threaded use).",
+        "6 (C18)",
+    ),
 }
 
 NOT_YET = "not claimed yet: the Coq model and correspondence harness for this property are not built in this revision (planned in DESIGN.md section 6)"
